@@ -1056,10 +1056,12 @@ def run_replay(h, path):
         return 0 if norm_rust(out[0]) == rp.get("expected") else 1
     if rp.get("program") is not None:
         out = c.harness_lines_resilient(h, "eval", [c.hexs(rp["program"])])
-        print("implementation now returns:", out[0])
+        now = out[0].split(";ENV:")[0]
+        print("implementation now returns:", now)
         if rp.get("expected") is not None:
             return 0 if last_result(out[0]) == rp["expected"] else 1
-        return 1
+        # a law failure: still failing iff the implementation still answers what was recorded
+        return 1 if now == rp.get("observed") else 0
     return 0
 
 
@@ -1089,7 +1091,7 @@ def main(argv):
         for l in open(corpus):
             if l.strip():
                 d = json.loads(l)
-                cases.append(Case(d["name"], [Raw(a["src"], a["coq"], a.get("k", "raw")) for a in d["args"]],
+                cases.append(Case(d["name"], [Raw(a["src"], a["coq"]) for a in d["args"]],
                                   "corpus", d.get("checked", False)))
     for _ in range(nb):
         cases.append(gen_builtin_case(rng))
